@@ -133,6 +133,9 @@ func init() {
 				add("stop", c19Params{Script: "SF" + strings.Repeat("F", 4), StopAt: 1 + k}, true)
 			}
 			add("stop", c19Params{Script: "SSS", StopAt: 2}, true)
+			// a production-sized interval (longer than a whole round): Stop() after a round that had to retry returns at once,
+			// it does not sit until the next scheduled check
+			add("stop", c19Params{Script: "FS", StopAt: 2, IntervalMs: 20000}, true)
 			// failing pings that take longer than the retry interval to fail (time-outs): five of them still end the process,
 			// four and a success do not
 			add("round", c19Params{Script: "FFFFF", SlowFailMs: 1050}, true)
@@ -144,7 +147,7 @@ func init() {
 			add("round", c19Params{Script: "SFSFFFFF", FailWithResult: true}, true)
 			for k := 0; k < 2; k++ {
 				raw, _ := json.Marshal(c19Params{IntervalMs: []int{5, 20}[k]})
-				out = append(out, drv.Scenario{Kind: "stop-slow-ping", Seed: seed, Params: raw, TimeoutS: 120, Solo: true})
+				out = append(out, drv.Scenario{Kind: "stop-slow-ping", Seed: seed, Params: raw, TimeoutS: 240, Solo: true})
 			}
 			// two Stop() calls racing each other while a ping is in flight and the next tick is due: neither may return
 			// before the checker has stopped
@@ -289,8 +292,14 @@ func runC19(sc drv.Scenario) drv.Result {
 				return drv.Result{Verdict: drv.Inconclusive, Detail: "no ping in flight"}
 			}
 			time.Sleep(50 * time.Millisecond)
-			if !callWithBound("Stop", h.Stop) {
-				return viol("stop-hang", "Stop() during a slow ping did not return within 15 s")
+			// after the cancellation the run loop may pick the pending tick instead (Go's select is fair) and ping once more, 1.5 s
+			// each time: the wait is geometric, so the bound is generous (40 extra pings have probability 2^-40)
+			stopped := make(chan struct{})
+			go func() { h.Stop(); close(stopped) }()
+			select {
+			case <-stopped:
+			case <-time.After(75 * time.Second):
+				return viol("stop-hang", "Stop() during a slow ping did not return within 75 s")
 			}
 			n := pcs.count()
 			time.Sleep(3300 * time.Millisecond)
